@@ -10,7 +10,7 @@ Require Import String.
 Require Import Arith Lia List Bool ZArith QArith Qcanon.
 From TK Require Import Mat_Sums Mat_Core Mat_Qc Mat_EigSelect EigSelect Mat_EigSelect_Tie
                        Mds_Model Mds_Spec Mds_Exec Mds_Proof Mds_Proof_Solver Mds_Proof_Qc
-                       Mds_Proof_Isomap Dijkstra_Spec.
+                       Mds_Proof_Isomap Dijkstra_Spec Spectral_KyFan Mds_Proof_Optimal.
 Import ListNotations.
 Local Open Scope nat_scope.
 
@@ -485,3 +485,70 @@ Example Mds_decisions_nonvacuous :
   c05_factor 2 1 (Q2Qc 0) [[qz 1; qz (-1)]; [qz (-1); qz 1]] [[qz 1]; [qz (-1)]] [qz 2] = Some true /\
   c05_dist 2 1 (Q2Qc 0) [[qz 1]; [qz (-1)]] [[qz 0; qz 4]; [qz 4; qz 0]] = Some true.
 Proof. split; vm_compute; reflexivity. Qed.
+
+(* 18. OPTIMALITY (the Eckart-Young bridge, proved; uses Ky Fan's inequality of
+       Spectral_KyFan.v for B^2).  Over EVERY ordered field, every n, d <= n: B symmetric positive
+       semi-definite with a full orthonormal ascending eigendecomposition; Q ANY n x d matrix with
+       orthonormal columns, C ANY d x d matrix.  Then
+         |B - Q C Q^T|_F^2 >= sum of the n-d smallest lambda^2,
+       the methods' Y Y^T attains that bound, hence no such Q C Q^T is closer to B than Y Y^T.
+       (Over the reals every matrix of rank <= d with symmetric range is some Q C Q^T; over a
+       field without square roots "has an orthonormal basis of its range" is the restriction.) *)
+Theorem Mds_eckart_young_frames :
+  forall (F : Type) (Fo : FieldOps F) (Ff : IsField F) (Fle : OrderedField F)
+         (n d : nat) (B V Q C : mat F) (lam : vec F),
+    d <= n ->
+    msym n B ->
+    meq n n (mmul n (mtrans V) V) mI ->
+    meq n n (mmul n V (mtrans V)) mI ->
+    meq n n (mmul n B V) (mmul n V (mdiag lam)) ->
+    Spectral_KyFan.ascending n lam ->
+    (forall t, t < n -> fle 0%F (lam t)) ->
+    meq d d (mmul n (mtrans Q) Q) mI ->
+    fle (sumn (n - d) (sq lam)) (fro2 n n (msub B (lowrank d Q C))).
+Proof. exact @eckart_young_frames. Qed.
+Print Assumptions Mds_eckart_young_frames.
+
+Theorem Mds_attains_bound :
+  forall (F : Type) (Fo : FieldOps F) (Ff : IsField F)
+         (n d : nat) (B V : mat F) (lam s : vec F),
+    d <= n ->
+    msym n B ->
+    meq n n (mmul n (mtrans V) V) mI ->
+    meq n n (mmul n V (mtrans V)) mI ->
+    meq n n (mmul n B V) (mmul n V (mdiag lam)) ->
+    (forall c, c < d -> (s c * s c)%F = lam (n - d + c)%nat) ->
+    let Y := scale_cols (select_cols n V (n - d, d)) s in
+    fro2 n n (msub B (mmul d Y (mtrans Y))) = sumn (n - d) (sq lam).
+Proof. exact @mds_attains_bound. Qed.
+Print Assumptions Mds_attains_bound.
+
+Theorem Mds_factor_optimal :
+  forall (F : Type) (Fo : FieldOps F) (Ff : IsField F) (Fle : OrderedField F)
+         (n d : nat) (B V Q C : mat F) (lam s : vec F),
+    d <= n ->
+    msym n B ->
+    meq n n (mmul n (mtrans V) V) mI ->
+    meq n n (mmul n V (mtrans V)) mI ->
+    meq n n (mmul n B V) (mmul n V (mdiag lam)) ->
+    Spectral_KyFan.ascending n lam ->
+    (forall t, t < n -> fle 0%F (lam t)) ->
+    (forall c, c < d -> (s c * s c)%F = lam (n - d + c)%nat) ->
+    meq d d (mmul n (mtrans Q) Q) mI ->
+    let Y := scale_cols (select_cols n V (n - d, d)) s in
+    fle (fro2 n n (msub B (mmul d Y (mtrans Y)))) (fro2 n n (msub B (lowrank d Q C))).
+Proof. exact @mds_factor_optimal. Qed.
+Print Assumptions Mds_factor_optimal.
+
+(* B = [[36,48],[48,64]]/25 = 4 * (3/5,4/5)(3/5,4/5)^T: eigenvalues (0, 4), rotation exo_V
+   (witness defined in Mds_Proof_Qc.v) *)
+Example Mds_factor_optimal_nonvacuous :
+  msym 2 exo_B /\
+  meq 2 2 (mmul 2 (mtrans exo_V) exo_V) mI /\
+  meq 2 2 (mmul 2 exo_V (mtrans exo_V)) mI /\
+  meq 2 2 (mmul 2 exo_B exo_V) (mmul 2 exo_V (mdiag exo_lam)) /\
+  Spectral_KyFan.ascending 2 exo_lam /\
+  (forall t, t < 2 -> fle 0%F (exo_lam t)) /\
+  (forall c, c < 1 -> (exo_s c * exo_s c)%F = exo_lam (2 - 1 + c)%nat) /\
+  meq 1 1 (mmul 2 (mtrans exo_Q) exo_Q) mI.
+Proof. exact exo_ok. Qed.
